@@ -66,7 +66,18 @@ pub async fn delete_saved_env_state(target: &TargetMetadata) -> Result<()> {
     // and a record that survives here would outlive a failed build.
     match fs::remove_file(&checksums_file).await {
         Ok(()) => Ok(()),
-        Err(e) if e.kind() == std::io::ErrorKind::NotFound => Ok(()),
+        // Nothing to delete either when no such file can be there: its name does not fit in a
+        // directory entry (a very long target name), or the work directory is not a directory.
+        Err(e)
+            if matches!(
+                e.kind(),
+                std::io::ErrorKind::NotFound
+                    | std::io::ErrorKind::InvalidFilename
+                    | std::io::ErrorKind::NotADirectory
+            ) =>
+        {
+            Ok(())
+        }
         Err(e) => Err(e).with_context(|| {
             format!(
                 "Failed to delete checksums file {}",
